@@ -177,6 +177,27 @@ Definition first_hop (o : outcome) : option (str * bool * role) :=
   | OSent a tls w _ => Some (a, match wire_role w with RPeer => false | _ => tls end, wire_role w)
   end.
 
+(* how many attempts are made and whether one connected: stop at the first success, at most n attempts *)
+Fixpoint tries (n : nat) (outcomes : list bool) : nat * bool :=
+  match n with
+  | O => (O, false)
+  | S n' => match outcomes with
+            | true :: _ => (1%nat, true)
+            | _ => let r := tries n' (tl outcomes) in (S (fst r), snd r)
+            end
+  end.
+
+(* the socket events of one exchange according to the spec, for ANY sequence of attempt outcomes: every attempt
+   goes to the one address the rules map the hop to; the connection, if any, is used once *)
+Definition spec_exchange_o (cfg : config) (rules : list rule) (t : target) (attempts : nat) (outcomes : list bool)
+  : list event :=
+  match spec_route cfg rules t with
+  | OFail => []
+  | OSent a tls w n =>
+      let r := tries (effective_attempts attempts) outcomes in
+      repeat (EvDial a) (fst r) ++ (if snd r then [EvUse a tls w n] else [])
+  end.
+
 (* the socket events of one exchange according to the spec: dial attempts (retries of the SAME address) and
    one use of the connection *)
 Definition spec_exchange (cfg : config) (rules : list rule) (t : target) (attempts failures : nat) : list event :=
